@@ -9,6 +9,8 @@ package main
 import (
 	"context"
 	"fmt"
+	"runtime"
+	"sort"
 	"strconv"
 	"strings"
 	"time"
@@ -27,7 +29,7 @@ func (c *cb) OnComplete(_ any)        { *c.log = append(*c.log, fmt.Sprintf("%d+
 func (c *cb) OnCompleteError(_ error) { *c.log = append(*c.log, fmt.Sprintf("%d!", c.id)) }
 
 type opT struct {
-	kind byte // N H W V C A X   (V = W issued with an already cancelled context: the tracker must treat it as W)
+	kind byte // N H W V C A X P  (P<o>:<id> = a waiter parks in WaitForHeadOffset(o))   (V = W issued with an already cancelled context: the tracker must treat it as W)
 	a, b int64
 }
 
@@ -117,6 +119,16 @@ var cancelledCtx = func() context.Context {
 
 const callTimeout = 3 * time.Second
 
+// once a head waiter was found not woken (already a verdict) the later ones are waited for only briefly
+var headWakeBroken bool
+
+func wakeTimeout() time.Duration {
+	if headWakeBroken {
+		return 500 * time.Microsecond
+	}
+	return callTimeout / 3
+}
+
 func runCase(o *hx.Out, c caseT) {
 	var fired []string
 	q := server.NewQuorumAckTracker(c.rf, c.head, c.commit)
@@ -126,6 +138,16 @@ func runCase(o *hx.Out, c caseT) {
 	closed := false
 	var obs []string
 	prevCommit := q.CommitOffset()
+	// head waiters (the follower cursors park in WaitForHeadOffset): one goroutine each, released at the end of the case
+	type parkedT struct {
+		off  int64
+		id   int
+		done chan struct{}
+		seen bool
+	}
+	var parked []*parkedT
+	parkCtx, parkCancel := context.WithCancel(context.Background())
+	defer parkCancel()
 	// an ack through a cursor that was never created cannot be issued: such ops are dropped from the case
 	var eff []opT
 	for _, op := range c.ops {
@@ -182,6 +204,16 @@ func runCase(o *hx.Out, c caseT) {
 			case 'X':
 				_ = q.Close()
 				closed = true
+			case 'P':
+				pw := &parkedT{off: op.a, id: int(op.b), done: make(chan struct{})}
+				parked = append(parked, pw)
+				go func() {
+					defer close(pw.done)
+					_ = q.WaitForHeadOffset(parkCtx, pw.off)
+				}()
+				for y := 0; y < 4; y++ {
+					runtime.Gosched() // let the waiter reach its wait before the next call
+				}
 			}
 		}()
 		select {
@@ -203,10 +235,47 @@ func runCase(o *hx.Out, c caseT) {
 			id, _ := strconv.Atoi(x[:len(x)-1])
 			sp.fired[id]++
 		}
-		obs = append(obs, fmt.Sprintf("%d,%d,%s,%s", commit, head, res, f))
-
 		where := fmt.Sprintf("case {%s} after its last op (#%d %s): commit=%d head=%d",
 			caseT{rf: c.rf, head: c.head, commit: c.commit, ops: eff}.input(), i, op, commit, head)
+		// head waiters: those whose offset the head has reached (all, once closed) must return - they are waited
+		// for (bounded); the others must still be parked
+		var woken []int
+		for _, pw := range parked {
+			if pw.seen {
+				continue
+			}
+			if closed || pw.off <= head {
+				select {
+				case <-pw.done:
+					pw.seen = true
+					woken = append(woken, pw.id)
+				case <-time.After(wakeTimeout()):
+					headWakeBroken = true
+					o.Violation("tracker:head-waiter-not-woken", fmt.Sprintf("%s: waiter %d parked in WaitForHeadOffset(%d) has not returned %v after the head offset reached %d",
+						where, pw.id, pw.off, callTimeout/3, head))
+					pw.seen = true // reported once
+				}
+			} else {
+				select {
+				case <-pw.done:
+					pw.seen = true
+					woken = append(woken, pw.id)
+					o.Violation("tracker:head-waiter-returned-early", fmt.Sprintf("%s: waiter %d for offset %d returned", where, pw.id, pw.off))
+				default:
+				}
+			}
+		}
+		sort.Ints(woken)
+		wk := "-"
+		if len(woken) > 0 {
+			ss := make([]string, len(woken))
+			for j, x := range woken {
+				ss[j] = strconv.Itoa(x)
+			}
+			wk = strings.Join(ss, ".")
+		}
+		obs = append(obs, fmt.Sprintf("%d,%d,%s,%s,%s", commit, head, res, f, wk))
+
 		if !closed {
 			for _, x := range fired {
 				if strings.HasSuffix(x, "!") {
@@ -329,6 +398,9 @@ func genAdmissible(r *hx.Rng, n int) caseT {
 			add(opT{kind: 'A', a: int64(f), b: o})
 		case k < 94 && r.Chance(30): // head advance replayed
 			add(opT{kind: 'H', a: hd - int64(r.Intn(2))})
+		case k < 95 && r.Chance(50): // a cursor that has sent everything parks until the head moves
+			waitID++
+			add(opT{kind: 'P', a: hd + int64(r.Intn(3)), b: int64(1000 + waitID)})
 		case k < 96: // an already satisfied / repeated wait, in order
 			waitID++
 			add(opT{kind: 'W', a: waited, b: int64(waitID)})
@@ -343,7 +415,7 @@ func genAdmissible(r *hx.Rng, n int) caseT {
 
 // the O-8 window, densely: every ack of one follower races ahead of the head advance
 func genEarlyAcks(r *hx.Rng, n int) caseT {
-	rf := hx.Pick(r, []uint32{2, 3, 3, 4, 5, 7})
+	rf := hx.Pick(r, []uint32{2, 3, 3, 4, 5, 5, 6, 7, 7})
 	head := int64(r.Intn(4))
 	c := caseT{rf: rf, head: head, commit: head, wf: true, tag: "early-acks"}
 	nf := int(rf) - 1
@@ -359,7 +431,15 @@ func genEarlyAcks(r *hx.Rng, n int) caseT {
 	for len(c.ops) < n {
 		o := hd + 1
 		c.ops = append(c.ops, opT{kind: 'N'})
+		// the cursors that are not ahead are parked waiting for this entry
+		for j := r.Intn(3); j > 0; j-- {
+			id++
+			c.ops = append(c.ops, opT{kind: 'P', a: o + int64(r.Intn(2)), b: int64(1000 + id)})
+		}
 		early := r.Intn(nf + 1)
+		if req := int(rf / 2); req >= 2 && r.Chance(60) {
+			early = 1 + r.Intn(req-1) // fewer early acks than the quorum
+		}
 		perm := r.Intn(nf)
 		for j := 0; j < early; j++ {
 			f := (perm + j) % nf
@@ -420,6 +500,9 @@ func genArbitrary(r *hx.Rng, n int) caseT {
 			c.ops = append(c.ops, opT{kind: 'A', a: int64(r.Intn(ncur)), b: head + int64(r.Intn(8)) - 4})
 		case k >= 98:
 			c.ops = append(c.ops, opT{kind: 'X'})
+		case k == 97:
+			id++
+			c.ops = append(c.ops, opT{kind: 'P', a: head + int64(r.Intn(4)) - 1, b: int64(1000 + id)})
 		}
 	}
 	return c
